@@ -1,5 +1,6 @@
 import Tyme.Driver.Util
 import Tyme.Driver.P01
+import Tyme.Driver.P15
 import Tyme.Driver.P16
 import Tyme.Driver.P11
 import Tyme.Driver.P05
@@ -35,6 +36,7 @@ def execOpAll (op : String) (a : List Int) : String :=
     <|> (P05.execOp op a)
     <|> (P11.execOp op a)
     <|> (P16.execOp op a)
+    <|> (P15.execOp op a)
     -- DISPATCH-EXEC   <|> (Pxx.execOp op a)
   match r with
   | none => "bad-op"
@@ -58,6 +60,7 @@ def specOpAll (op : String) (a : List Int) : String :=
     <|> (P05.specOp op a)
     <|> (P11.specOp op a)
     <|> (P16.specOp op a)
+    <|> (P15.specOp op a)
     -- DISPATCH-SPEC   <|> (Pxx.specOp op a)
   match r with
   | none => "n/a"
@@ -80,6 +83,7 @@ def runEnumAll (name : String) (args : List String) (out : IO.FS.Stream) : Optio
   <|> (P05.runEnum name args out)
   <|> (P11.runEnum name args out)
   <|> (P16.runEnum name args out)
+  <|> (P15.runEnum name args out)
   -- DISPATCH-ENUM   <|> (Pxx.runEnum name args out)
 
 def lineWith (f : String → List Int → String) (line : String) : String :=
